@@ -2,7 +2,7 @@ NOT_APPLICABLE = {}
 CHECKS["C16"] = dict(
     engine="E1",
     technique="exhaustive enumeration of (n, k / test_size, shuffle schedule) executions of the real splitting code; RNG owned through the verif-hooks seam; deviation-bounded schedules above n=6",
-    text="Every (n,k) with 2<=k<=n<=64 unshuffled, every permutation the shuffle can draw for n<=6 (n<=8 thorough) and every schedule with <=2 non-identity Fisher-Yates steps up to n=16, each judged by the partition / complement / block / leak oracle with a spy estimator. This is a complete enumeration of the stated bounds, which is the right level for index bookkeeping code whose defects are off-by-one and misplacement errors that show on small n.",
+    text="Every (n,k) with 2<=k<=n<=64 unshuffled, every permutation the shuffle can draw for n<=7 (n<=9 thorough) and every schedule with <=2 non-identity Fisher-Yates steps up to n=16 (32), each judged by the partition / complement / balance / leak oracle with a spy estimator. This is a complete enumeration of the stated bounds, which is the right level for index bookkeeping code whose defects are off-by-one and misplacement errors that show on small n.",
     note="Assumes the chooser-driven Fisher-Yates enumerates exactly the permutations rand's shuffle can produce; rows identified by content; n>64 and non-listed test sizes not explored.",
 )
 CHECKS["C12"] = dict(
